@@ -176,14 +176,36 @@ def build(name, kw, **common):
     """instantiate through the public INDICATOR_MAP (so an added / renamed class is picked up)"""
     from hexital.indicators import INDICATOR_MAP
     cls = INDICATOR_MAP[name]
-    return cls(**kw, **common)
+    return cls(**tf_decode(kw), **tf_decode(common))
+
+
+def tf_decode(kw):
+    """JSON-able spelling of a TimeFrame enum member: "enum:MINUTE5" -> TimeFrame.MINUTE5 (documented as
+    interchangeable with the string "T5"; lower-case strings such as "t5" are accepted too)"""
+    tf = kw.get("timeframe")
+    if isinstance(tf, str) and tf.startswith("enum:"):
+        from hexital.utils.timeframe import TimeFrame
+        kw = dict(kw, timeframe=TimeFrame[tf[5:]])
+    return kw
 
 
 def build_amorph(fname, kw, **common):
     from hexital.analysis import MOVEMENT_MAP, PATTERN_MAP
     from hexital.indicators import INDICATOR_MAP
     fn = (MOVEMENT_MAP | PATTERN_MAP)[fname]
-    return INDICATOR_MAP["Amorph"](analysis=fn, args=dict(kw), **common)
+    d = dict(kw)
+    ind = INDICATOR_MAP["Amorph"](analysis=fn, args=d, **common)
+    caller_reuses(d)
+    return ind
+
+
+def caller_reuses(d):
+    """the caller goes on using (and editing) a dict it handed over: a configuration is captured at construction"""
+    for v in list(d.values()):
+        if isinstance(v, dict):
+            caller_reuses(v)
+    d.clear()
+    d["edited_by_caller_after_construction"] = 7
 
 
 def build_any(spec, **common):
